@@ -616,9 +616,14 @@ func (interp *Interpreter) ast(f ast.Node) (string, *node, error) {
 				k.ident = "_"
 				v := addChild(&root, astNode{b, nod}, pos, identExpr, aNop)
 				v.ident = "_"
-			case forStmt7:
-				k := addChild(&root, astNode{b, nod}, pos, identExpr, aNop)
-				k.ident = "_"
+			case forStmt1, forStmt3, forStmt6, forStmt7:
+				// One node per variable declared in the init clause, for its per-iteration copy.
+				if init, ok := anc.ast.(*ast.ForStmt).Init.(*ast.AssignStmt); ok && init.Tok == token.DEFINE {
+					for range init.Lhs {
+						k := addChild(&root, astNode{b, nod}, pos, identExpr, aNop)
+						k.ident = "_"
+					}
+				}
 			}
 
 		case *ast.BranchStmt:
